@@ -173,9 +173,10 @@ def parse_valgrind(errtxt):
             m = re.match(r"(Invalid (read|write) of size \d+|Conditional jump or move depends on uninitialised value|"
                          r"Use of uninitialised value of size \d+|Syscall param .* uninitialised|"
                          r"Uninitialised byte\(s\) found during client check request|Invalid free|Mismatched free|"
-                         r"Source and destination overlap in (\w+)\((0x[0-9A-Fa-f]+), (0x[0-9A-Fa-f]+))", ln)
+                         r"Possible data race during (read|write) of size \d+|"
+                         r"Source and destination overlap in \w+\((?P<dst>0x[0-9A-Fa-f]+), (?P<src>0x[0-9A-Fa-f]+))", ln)
             if m and cur:
-                if m.group(0).startswith("Source and destination") and m.group(4) == m.group(5):
+                if m.group(0).startswith("Source and destination") and m.group("dst") == m.group("src"):
                     i += 1
                     continue  # memcpy(dst == src): identical pointers, see DESIGN 2.5
                 kind = re.sub(r" of size \d+", "", m.group(1) if not m.group(0).startswith("Source") else "Overlap")
